@@ -541,8 +541,9 @@ def _all_opts():
     return [dict(zip(OPT_KEYS, bits)) for bits in itertools.product([True, False], repeat=6)]
 
 
-def _runs_for(rng, store, n_opts, exhaustive=False, opts_list=None):
+def _runs_for(rng, store, n_opts, exhaustive=False, opts_list=None, diff_same=True):
     cyc = has_cycle(store)
+    ncont = sum(1 for c in store if c["t"] not in SCALARS)
     feats = store_features(store)
     runs = []
     if opts_list is not None:
@@ -564,6 +565,12 @@ def _runs_for(rng, store, n_opts, exhaustive=False, opts_list=None):
         runs.append({"entry": "pydiff", "opts": o})
         if not cyc and not (feats & JSON_OUT):
             runs.append({"entry": "json", "opts": o})
+        # pydiff.diff(from, to, options) is an entry point too: it builds BOTH objects (monitor only, not modelled)
+        if ncont <= 8 and not (feats & {"ckey", "cmember"}):
+            runs.append({"entry": "diff", "side": "to", "opts": o})      # diff(plain, obj)
+            runs.append({"entry": "diff", "side": "from", "opts": o})    # diff(obj, plain)
+            if diff_same and not exhaustive:
+                runs.append({"entry": "diff", "side": "both", "opts": o})    # diff(obj, obj)
     return runs
 
 
@@ -577,6 +584,7 @@ PROFILES = [
     ("custom", dict(custom=0.35, set=0.05, ckey=0.0, share=0.3, slots=3), 0),
     ("cyclic", dict(custom=0.0, set=0.05, ckey=0.0, share=0.3, slots=2), 1),
     ("cyclic2", dict(custom=0.15, set=0.05, ckey=0.0, share=0.4, slots=3), 2),
+    ("cyccustom", dict(custom=0.85, set=0.0, ckey=0.0, share=0.3, slots=2), 2),
 ]
 
 
@@ -628,6 +636,23 @@ def _edge_cases():
     ob = B()
     ob.me = ob
     objs.append(ob)                             # custom self cycle
+    ma, mb = A(), B()
+    ma.mentor = mb
+    mb.mentor = ma
+    objs += [ma, [ma], {"k": mb}]               # mutual cycle running ONLY through custom objects
+    c0, c1, c2, c3 = A(), A(), B(), DC()
+    c0.next, c1.next, c2.next, c3.x = c1, c2, c3, c0
+    c0.tag = 1
+    objs += [c0, [1, c2]]                       # a chain of objects looping back
+    cx = A()
+    cx.a = cx
+    cx.b = cx
+    objs.append(cx)                             # two self references
+    cy = A()
+    cy.inner = B()
+    cy.inner.outer = cy
+    cy.inner.val = [1, 2]
+    objs.append(cy)
     oc = A()
     oc.items = [oc]
     objs.append([oc])
@@ -750,7 +775,7 @@ def _exhaustive(rng, max_containers, max_slots, all_opts_every, full_kinds_upto=
                 if count % all_opts_every == 0:
                     runs = _runs_for(rng, st, 2, exhaustive=True)
                 else:
-                    runs = _runs_for(rng, st, 2, opts_list=_EXH_OPTS)
+                    runs = _runs_for(rng, st, 2, opts_list=_EXH_OPTS, diff_same=False)
                 out.append({"store": st, "root": 0, "runs": runs})
     return out
 
@@ -773,6 +798,8 @@ def _dump_tree(node, cellof):
     from graphtage.object_set import IdentityHash
     from graphtage.pydiff import PyObj
     cn = type(node).__name__
+    if cn.startswith("Edited"):
+        cn = cn[len("Edited"):]           # pydiff.diff returns the edited copy of the FROM tree
     if isinstance(node, CyclicReference):
         o = node.object
         depth = 0
@@ -852,6 +879,34 @@ def _guard(f):
         return False, _exc_name(e)
 
 
+_PLAIN = [1, 2]
+
+
+def _impl_diff(run, root, o, cellof):
+    """`pydiff.diff(from, to, options)`: the object goes on the FROM side, the TO side, or both; the other side is
+    the plain list [1, 2].  Reference = `pydiff.build_tree(side, options)` of each side under the same options."""
+    from graphtage import pydiff
+    side = run["side"]
+    plain = list(_PLAIN)
+    frm = plain if side == "to" else root
+    to = plain if side == "from" else root
+    r = {}
+    ok, ref_f = _guard(lambda: pydiff.build_tree(frm, _mk_options(run["opts"])))
+    r["ref_from"] = _dump_tree(ref_f, cellof) if ok else {"err": ref_f}
+    ok, ref_t = _guard(lambda: pydiff.build_tree(to, _mk_options(run["opts"])))
+    r["ref_to"] = _dump_tree(ref_t, cellof) if ok else {"err": ref_t}
+    ok, d = _guard(lambda: pydiff.diff(frm, to, o))
+    if not ok:
+        r["err"] = d
+        return r
+    r["err"] = "ok"
+    r["from_tree"] = _dump_tree(d, cellof)
+    ed = getattr(d, "edit", None)
+    tn = getattr(ed, "to_node", None)
+    r["to_tree"] = _dump_tree(tn, cellof) if tn is not None else None
+    return r
+
+
 def impl(case):
     from graphtage.builder import BasicBuilder
     from graphtage import pydiff, json as gjson
@@ -873,6 +928,9 @@ def impl(case):
     for run in case["runs"]:
         o = _mk_options(run["opts"])
         entry = run["entry"]
+        if entry == "diff":
+            out.append(_impl_diff(run, root, o, cellof))
+            continue
         if entry == "basic":
             f = lambda: BasicBuilder(o).build_tree(root)
         elif entry == "pydiff":
@@ -913,11 +971,12 @@ def to_model(case, obs):
         if d["t"] in ("set", "frozenset"):
             d["v"] = obs["set_orders"][str(i)]
         store.append(d)
-    return {"s": "build", "store": store, "root": case["root"], "runs": case["runs"]}
+    return {"s": "build", "store": store, "root": case["root"],
+            "runs": [r for r in case["runs"] if r["entry"] != "diff"]}
 
 
 def expect(case, obs):
-    return obs["runs"]
+    return [r for run, r in zip(case["runs"], obs["runs"]) if run["entry"] != "diff"]
 
 
 # --------------------------------------------------------------------------------------------------
@@ -949,6 +1008,33 @@ def _in_domain(entry, feats, store):
     return not (feats & JSON_OUT)
 
 
+def _monitor_diff(run, r, hit):
+    """pydiff.diff must build both sides exactly as pydiff.build_tree does under the same options."""
+    side = run["side"]
+    rf, rt = r["ref_from"], r["ref_to"]
+    if isinstance(rf, dict):
+        want = rf["err"]                  # the FROM object is built first
+    elif isinstance(rt, dict):
+        want = rt["err"]
+    else:
+        want = "ok"
+    if want == "ok" and r["err"] not in ("ok", "cycle"):
+        return        # raised by the DIFFING phase (e.g. str vs bytes string edit), not by building: outside C18
+    if r["err"] != want:
+        bad_side = "from" if isinstance(rf, dict) or (r["err"] != "ok" and side == "from") else "to"
+        hit(f"pydiff-diff/{bad_side}-side-options" if "cycle" in (r["err"], want) else "pydiff-diff/error-mismatch",
+            f"pydiff.diff(side={side}) outcome {r['err']} but pydiff.build_tree of the sides gives {want} under the same options")
+        return
+    if want != "ok":
+        return
+    if r["to_tree"] != rt:
+        hit("pydiff-diff/to-side-options",
+            f"pydiff.diff(side={side}): the TO tree differs from pydiff.build_tree(to, options): {r['to_tree']!r} vs {rt!r}")
+    if r["from_tree"] != rf:
+        hit("pydiff-diff/from-side-options",
+            f"pydiff.diff(side={side}): the FROM tree differs from pydiff.build_tree(from, options): {r['from_tree']!r} vs {rf!r}")
+
+
 def monitor(case, obs):
     hits = []
 
@@ -972,6 +1058,9 @@ def monitor(case, obs):
     by_opts = {}
     for run, r in zip(case["runs"], obs["runs"]):
         entry, o = run["entry"], run["opts"]
+        if entry == "diff":
+            _monitor_diff(run, r, hit)
+            continue
         tagsfx = "/container-key" if container_key else ""
         indom = _in_domain(entry, feats, store)
         err = r["err"]
